@@ -1556,6 +1556,17 @@ func (c *Cluster) loadSegmentBatches(pd *partData, fsys fs, pdir string, base in
 	return result, nil
 }
 
+// truncateLogFile cuts an append log back to its last valid entry.
+func truncateLogFile(fsys fs, path string, size int64) {
+	f, err := fsys.OpenFile(path, os.O_WRONLY, 0o644)
+	if err != nil {
+		return
+	}
+	f.Truncate(size)
+	f.Sync()
+	f.Close()
+}
+
 func (c *Cluster) loadPIDsLog(fsys fs, dir string) error {
 	raw, err := fsys.ReadFile(filepath.Join(dir, "pids.log"))
 	if err != nil {
@@ -1569,6 +1580,10 @@ func (c *Cluster) loadPIDsLog(fsys fs, dir string) error {
 	entries, validBytes := readEntries(raw)
 	if validBytes < len(raw) {
 		c.cfg.logger.Logf(LogLevelWarn, "pids.log: discarding %d corrupt trailing bytes", len(raw)-validBytes)
+		// Truncate the torn tail: the log is reopened with O_APPEND and
+		// entries appended behind it would be lost to the next replay.
+		truncateLogFile(fsys, filepath.Join(dir, "pids.log"), int64(validBytes))
+		c.pidsLogSize.Store(int64(validBytes))
 	}
 	for _, e := range entries {
 		var entry pidLogEntry
@@ -1626,6 +1641,9 @@ func (c *Cluster) loadGroupsLog(fsys fs, dir string) error {
 	entries, validBytes := readEntries(raw)
 	if validBytes < len(raw) {
 		c.cfg.logger.Logf(LogLevelWarn, "groups.log: discarding %d corrupt trailing bytes", len(raw)-validBytes)
+		// Truncate the torn tail, see loadPIDsLog.
+		truncateLogFile(fsys, filepath.Join(dir, "groups.log"), int64(validBytes))
+		c.groupsLogSize.Store(int64(validBytes))
 	}
 	r := replayGroupsLog(entries)
 
